@@ -9,12 +9,14 @@
    active, channel, confinement flags, validation flag, cohort, refresh times, Block(), configuration) and the world
    (linked revision, mounted revisions) afterwards equal what they were before.
 
-   The full statement is FALSE of the faithful model and of the real code in three recorded classes (KNOWN_FINDINGS
-   keys fail-after-discard, revert-status-lost, config-from-nothing; witnesses below, each replayed on the real code by
-   the driver on every run).  What is proved is the statement guarded by exactly these classes:
+   The full statement is FALSE of the faithful model and of the real code in two recorded classes (KNOWN_FINDINGS
+   keys fail-after-discard, config-from-nothing; witnesses below, each replayed on the real code by the driver on every
+   run).  What is proved is the statement guarded by exactly these classes:
      - the failure point comes before the first COMPLETED discard-snap of the change (garbage collection has no undo);
-     - rs_guard: the operation is a revert, or its target revision is not marked NotBlocked in RevertStatus;
      - cfg_guard: the snap has some configuration, or nothing writes configuration during the change.
+   A third class (finding 6, RevertStatus lost by an undone non-revert refresh onto a kept revision) was repaired in /repo
+   by commit 5dcb85f; the model follows the repaired code, its guard is gone from the theorem, and the former witness is
+   now the regression Example C10_revert_status_restored (the same history is swept by the driver on every run).
    `wf` is the invariant of settled states: props/C11.v proves that it holds of the empty state and is preserved by refused
    operations, completed install / revert / disable and the failed operations covered here (C11_consistent_invariant_partial);
    its preservation by completed refresh / remove / enable is monitored on the implementation, not proved.
@@ -31,37 +33,21 @@ Theorem C10_failed_op_restores : forall (s : st) (o : op) (j : nat) (retain : Z)
   (okind o = OInstall \/ okind o = ORefresh \/ okind o = ORevert) ->
   accepts o s = true ->
   forallb (fun t => negb (is_discard t)) (firstn j (tasks_for o s retain inuse)) = true ->
-  rs_guard o s -> cfg_guard o s ->
+  cfg_guard o s ->
   forget (run_change o (S j) (tasks_for o s retain inuse) s) = forget s.
 Proof. exact failed_op_restores. Qed.
 Print Assumptions C10_failed_op_restores.
 
-(* finding 6 (KNOWN_FINDINGS key revert-status-lost): kept [1,2,3], current 1 after a not-blocking revert from 3
-   (Block() = [2]); a refresh to the kept revision 3 that fails right after link-snap, before any discard: afterwards the
-   RevertStatus entry of 3 is gone and Block() = [2,3] *)
-Theorem C10_revert_status_refuted : exists (s : st) (o : op) (j : nat) (retain : Z),
-  wf s /\ okind o = ORefresh /\ accepts o s = true /\ cfg_guard o s /\
-  forallb (fun t => negb (is_discard t)) (firstn j (tasks_for o s retain no_inuse)) = true /\
-  block s = [2] /\ block (run_change o (S j) (tasks_for o s retain no_inuse) s) = [2; 3].
-Proof.
-  exists s_reverted, (mk_refresh 3 0 9), 9%nat, 3%Z.
-  destruct revert_status_lost as (A & B & _ & C & D).
-  refine (conj wf_s_reverted (conj eq_refl (conj A (conj _ (conj B (conj C D)))))).
-  left; discriminate.
-Qed.
-Print Assumptions C10_revert_status_refuted.
-
 (* finding 7 (key fail-after-discard): kept [1,2], retain 2, refresh to the new revision 3 failing after the
    discard-snap of revision 1 completed: the refresh is undone but kept = [2], mounted = [2] *)
 Theorem C10_discard_refuted : exists (s : st) (o : op) (j : nat) (retain : Z),
-  wf s /\ okind o = ORefresh /\ accepts o s = true /\ rs_guard o s /\ cfg_guard o s /\
+  wf s /\ okind o = ORefresh /\ accepts o s = true /\ cfg_guard o s /\
   seq s = [1; 2] /\ seq (run_change o (S j) (tasks_for o s retain no_inuse) s) = [2].
 Proof.
   exists s_two, (mk_refresh 3 0 9), 18%nat, 2%Z.
   destruct discard_not_undone as (A & _ & C & _).
-  refine (conj wf_s_two (conj eq_refl (conj A (conj _ (conj _ (conj eq_refl C)))))).
-  - right; simpl; tauto.
-  - right; right; simpl; repeat split; auto; discriminate.
+  refine (conj wf_s_two (conj eq_refl (conj A (conj _ (conj eq_refl C))))).
+  right; right; simpl; repeat split; auto; discriminate.
 Qed.
 Print Assumptions C10_discard_refuted.
 
@@ -69,25 +55,33 @@ Print Assumptions C10_discard_refuted.
    refresh fails after the hook and is undone: the configuration written by the failed change stays *)
 Theorem C10_config_refuted : exists (s : st) (o : op) (retain : Z),
   let ts := tasks_for o s retain no_inuse in
-  wf s /\ okind o = ORefresh /\ accepts o s = true /\ rs_guard o s /\
+  wf s /\ okind o = ORefresh /\ accepts o s = true /\
   forallb (fun t => negb (is_discard t)) ts = true /\
   cfg s = 0 /\ cfg (run_change o (S (length ts)) ts s) = 7.
 Proof.
   exists s_two, (mk_refresh 3 7 9), 3%Z.
   destruct config_from_nothing as (A & B & C & D).
-  refine (conj wf_s_two (conj eq_refl (conj A (conj _ (conj B (conj C D)))))).
-  right; simpl; tauto.
+  exact (conj wf_s_two (conj eq_refl (conj A (conj B (conj C D))))).
 Qed.
 Print Assumptions C10_config_refuted.
 
 (* non-vacuity: the hypotheses of C10_failed_op_restores are satisfiable, also past link-snap *)
 Example C10_hypotheses_satisfiable :
   let o := mk_revert 2 true 9 in
-  wf s_reverted /\ accepts o s_reverted = true /\ rs_guard o s_reverted /\ cfg_guard o s_reverted /\
+  wf s_reverted /\ accepts o s_reverted = true /\ cfg_guard o s_reverted /\
   forallb (fun t => negb (is_discard t)) (firstn 13 (tasks_for o s_reverted 3 no_inuse)) = true /\
   length (tasks_for o s_reverted 3 no_inuse) = 13%nat.
 Proof.
-  refine (conj wf_s_reverted (conj eq_refl (conj _ (conj _ (conj eq_refl eq_refl))))).
-  - left; reflexivity.
-  - left; discriminate.
+  refine (conj wf_s_reverted (conj eq_refl (conj _ (conj eq_refl eq_refl)))).
+  left; discriminate.
 Qed.
+
+(* regression for finding 6 (repaired by /repo commit 5dcb85f): kept [1,2,3], current 1 after a not-blocking revert from 3
+   (Block() = [2]); a refresh to the kept revision 3 that fails right after link-snap is undone with the RevertStatus
+   entry of 3 back in place: Block() = [2] again.  (An instance of C10_failed_op_restores, which no longer needs a guard for it.) *)
+Example C10_revert_status_restored :
+  let o := mk_refresh 3 0 9 in let ts := tasks_for o s_reverted 3 no_inuse in
+  accepts o s_reverted = true /\
+  forallb (fun t => negb (is_discard t)) (firstn 9 ts) = true /\
+  nb (run_change o 10 ts s_reverted) = [3] /\ block s_reverted = [2] /\ block (run_change o 10 ts s_reverted) = [2].
+Proof. exact revert_status_restored. Qed.
